@@ -198,3 +198,10 @@ def r07_6(ctx):
     from .c02 import r02_4
     r06_2(ctx)
     r02_4(ctx)
+
+
+@rule("R07.7", min_instances=40, desc="position kinds (layout interpreter, swept over N, M, degree): every list the evaluators index has the length of its kind (NODE N+1, INTERVAL N, IPOINT N*M[+1], ISTEP N*M, ROOT N x M x degree) and is completely filled")
+def r07_7(ctx):
+    from .layout_rules import kinds_table
+    for cname in ("MultipleShooting", "SingleShooting", "DirectCollocation"):
+        kinds_table(ctx, cname)
